@@ -29,6 +29,7 @@ func init() {
 	verifRegister("verifC11Conversion", verifC11Conversion)
 	verifRegister("verifC11Range", verifC11Range)
 	verifRegister("verifC11General", verifC11General)
+	verifRegister("verifC11LibraryBound", verifC11LibraryBound)
 }
 
 type c11Fn struct {
@@ -47,6 +48,18 @@ var c11Numbers = []c11Fn{
 	{"max", MaxFunc, 0}, {"int", IntFunc, 0}, {"ceil", CeilFunc, 0}, {"floor", FloorFunc, 0}, {"signum", SignumFunc, 0},
 	{"not", NotFunc, 0}, {"and", AndFunc, 0}, {"or", OrFunc, 0}, {"byteslen", BytesLenFunc, 0}, {"bytesslice", BytesSliceFunc, 0},
 }
+
+// functions whose known-argument path needs a library the engine cannot follow: driven only with argument forms that
+// are decided before that library is reached (null, unknown, dynamic, marked unknown, wrong type)
+var c11LibraryBound = []c11Fn{
+	{"regex", RegexFunc, 0}, {"regexall", RegexAllFunc, 0}, {"regexreplace", RegexReplaceFunc, 0}, {"chomp", ChompFunc, 0},
+	{"format", FormatFunc, 0}, {"formatlist", FormatListFunc, 0}, {"formatdate", FormatDateFunc, 0}, {"timeadd", TimeAddFunc, 0},
+	{"jsonencode", JSONEncodeFunc, 0}, {"jsondecode", JSONDecodeFunc, 0}, {"csvdecode", CSVDecodeFunc, 0},
+	{"log", LogFunc, 0}, {"pow", PowFunc, 0}, {"parseint", ParseIntFunc, 0},
+}
+
+// c11SpecialOnly: generate only the argument forms that do not carry a known value of the right type
+var c11SpecialOnly = false
 
 var c11General = []c11Fn{{"equal", EqualFunc, 0}, {"notequal", NotEqualFunc, 0}}
 
@@ -243,6 +256,16 @@ func c11Any(tag string) cty.Value {
 
 // c11Arg generates one argument for a parameter with type constraint ty.
 func c11Arg(tag string, ty cty.Type) cty.Value {
+	if c11SpecialOnly {
+		k := vChoice(tag, c11Specials+1)
+		if v, ok := c11Special(k, ty); ok {
+			return v
+		}
+		if ty == cty.String || ty == cty.DynamicPseudoType {
+			return cty.NumberIntVal(1).Mark(c11Mark) // wrong type for a string; any value for a placeholder
+		}
+		return cty.StringVal("x")
+	}
 	switch {
 	case ty == cty.Number:
 		k := vChoice(tag, c11Specials+3)
@@ -450,3 +473,8 @@ func verifC11Range() {
 }
 
 func verifC11General() { c11Drive(c11General, 2) }
+
+func verifC11LibraryBound() {
+	c11SpecialOnly = true
+	c11Drive(c11LibraryBound, 2)
+}
